@@ -76,6 +76,15 @@ theorem memoryGasCost_spec {m : Mem} {ms fee : Nat} {m' : Mem} (hm : MemInv m) (
         have hmax : max m.len ms = m.len := by omega
         refine ⟨rfl, by simp [hmax, hl], rfl⟩
 
+/-- memoryGasCost succeeds only for requests of at most 0xffffffffe0 bytes -/
+theorem memoryGasCost_some_bound {m : Mem} {ms : Nat} {x : Nat × Mem} (h : memoryGasCost m ms = some x) : ms ≤ 0xffffffffe0 := by
+  unfold memoryGasCost at h
+  split at h
+  · omega
+  · split at h
+    · cases h
+    · omega
+
 /-! ### safeAdd / safeMul -/
 
 theorem safeAdd_some {a b c : Nat} (h : safeAdd a b = some c) : c = a + b ∧ c < two64 := by
